@@ -194,6 +194,123 @@ fn all_nodes<'t>(tree: &'t Tree) -> Vec<Node<'t>> {
     v
 }
 
+/// Family 1: several patterns whose negated-field lists are related (sub-lists, suffixes, prefixes,
+/// permutations of one base list) — the compiler shares identical lists between patterns.
+fn gen_negated_family(rng: &mut Rng, g: &QGen, named: &[&Node]) -> Option<String> {
+    if g.fields.len() < 2 {
+        return None;
+    }
+    // base list: 2-3 distinct fields in random order
+    let mut base: Vec<String> = Vec::new();
+    let want = 2 + rng.below(2);
+    for _ in 0..8 {
+        let f = rng.pick(&g.fields).clone();
+        if !base.contains(&f) {
+            base.push(f);
+        }
+        if base.len() == want {
+            break;
+        }
+    }
+    let npat = 2 + rng.below(3);
+    let mut q = String::new();
+    for _ in 0..npat {
+        let list: Vec<String> = match rng.below(5) {
+            0 => base.clone(),
+            1 => base[rng.range(1, base.len() - 1)..].to_vec(), // proper suffix
+            2 => base[..rng.range(1, base.len() - 1)].to_vec(), // proper prefix
+            3 => vec![rng.pick(&base).clone()],
+            _ => {
+                let mut l = base.clone();
+                l.reverse();
+                l
+            }
+        };
+        let head = if rng.chance(1, 2) {
+            "_".to_string()
+        } else {
+            // the kind of a node that has at least one field child, else any named node
+            let with_field: Vec<&&Node> = named.iter().filter(|n| {
+                let mut c = n.walk();
+                let mut has = false;
+                if c.goto_first_child() {
+                    loop {
+                        if c.field_name().is_some() {
+                            has = true;
+                            break;
+                        }
+                        if !c.goto_next_sibling() {
+                            break;
+                        }
+                    }
+                }
+                has
+            }).collect();
+            if with_field.is_empty() || rng.chance(1, 4) { rng.pick(named).kind().to_string() } else { rng.pick(&with_field).kind().to_string() }
+        };
+        if head == "ERROR" {
+            continue;
+        }
+        let negs: String = list.iter().map(|f| format!(" !{f}")).collect();
+        let cap = if rng.chance(2, 3) { g.capture(rng) } else { String::new() };
+        q.push_str(&format!("({head}{negs}){cap}\n"));
+    }
+    if q.is_empty() {
+        None
+    } else {
+        Some(q)
+    }
+}
+
+/// Family 2: a window of adjacent named children of one parent, joined by anchors, taken from a
+/// random offset (not only the first children), captures on none / first / last / all elements.
+fn gen_sibling_window(rng: &mut Rng, g: &QGen, named: &[&Node]) -> Option<String> {
+    let parents: Vec<&&Node> = named.iter().filter(|n| n.named_child_count() >= 3 && !n.is_error()).collect();
+    if parents.is_empty() {
+        return None;
+    }
+    let p = **rng.pick(&parents);
+    let mut cur = p.walk();
+    let kids: Vec<Node> = p.named_children(&mut cur).collect();
+    let w = 2 + rng.below(2).min(kids.len() - 2);
+    let off = rng.below(kids.len() - w + 1);
+    let capmode = rng.below(4); // 0 none, 1 first, 2 last, 3 all
+    let mut s = format!("({}", p.kind());
+    if rng.chance(1, 5) {
+        s.push_str(" .");
+    }
+    for i in 0..w {
+        let k = &kids[off + i];
+        if k.is_missing() || k.is_error() {
+            return None;
+        }
+        if i > 0 {
+            // mostly anchored, sometimes a plain sibling
+            if rng.chance(4, 5) {
+                s.push_str(" .");
+            }
+        }
+        s.push(' ');
+        let sub = if rng.chance(1, 4) { g.pat_node(rng, k, 1)? } else if rng.chance(1, 6) { "(_)".to_string() } else { format!("({})", k.kind()) };
+        s.push_str(&sub);
+        let cap = match capmode {
+            1 => i == 0,
+            2 => i + 1 == w,
+            3 => true,
+            _ => false,
+        };
+        if cap {
+            s.push_str(&g.capture(rng));
+        }
+    }
+    if rng.chance(1, 6) {
+        s.push_str(" .");
+    }
+    s.push(')');
+    let cap = if rng.chance(1, 2) { g.capture(rng) } else { String::new() };
+    Some(format!("{s}{cap}\n"))
+}
+
 fn gen_query(rng: &mut Rng, g: &mut QGen, tree: &Tree) -> Option<String> {
     let nodes = all_nodes(tree);
     let named: Vec<&Node> = nodes.iter().filter(|n| n.is_named() && !n.is_missing()).collect();
@@ -201,6 +318,23 @@ fn gen_query(rng: &mut Rng, g: &mut QGen, tree: &Tree) -> Option<String> {
         return None;
     }
     g.quant_ok = !rng.chance(3, 5); // 60 % of the queries are quantifier-free
+    match rng.below(10) {
+        0 => {
+            if let Some(q) = gen_negated_family(rng, g, &named) {
+                return Some(q);
+            }
+        }
+        1 | 2 => {
+            let saved = g.quant_ok;
+            g.quant_ok = false;
+            let r = gen_sibling_window(rng, g, &named);
+            g.quant_ok = saved;
+            if let Some(q) = r {
+                return Some(q);
+            }
+        }
+        _ => {}
+    }
     let npat = 1 + rng.below(2);
     let mut q = String::new();
     for _ in 0..npat {
